@@ -1100,7 +1100,7 @@ def transforms(tier):
   out = []
   for i, (a, tr) in enumerate(tops):
     a = mod(a, transform=tr)
-    ms = modifiers(a, full=thorough or a['k'] in ('List', 'Dict') and i % 2 == 0)
+    ms = modifiers(a, full=thorough or i in (0, 11))
     out += ms
   # nested: the transform sits on an element / field / candidate.
   tl = List(Int(), transform='tr_list')
@@ -1939,6 +1939,8 @@ def drv_extend(tier, seed):
         # related pairs; half of the (many) container / union pairs; 4% of the rest.
         rel = _related(c, b)
         p_keep = (0.5 if c['k'] == b['k'] and c['k'] in _BIG and not tc else 1.0) if rel else 0.04
+        if has_transform(b):
+          p_keep *= 0.3       # (bases with a user transform: a sample.)
       else:
         p_keep = 1.0 if _related(c, b) else 0.05
       if p_keep < 1.0 and r.random() > p_keep:
@@ -1982,7 +1984,7 @@ def drv_extend(tier, seed):
                f'{U.exprs[j]} was changed by serving as the base of extensions: {R(base)}',
                '# see message\nraise AssertionError("base changed by extend")')
   rec.scope = (f'{n_pairs} ordered pairs (c, b) of {n} regex-free specs '
-               f'({"related pairs (half of the transform-free List/Tuple/Dict/Union ones) + 4% of the rest" if tier == "quick" else "all related pairs + 5% of the rest"}), '
+               f'({"related pairs (half of the transform-free List/Tuple/Dict/Union ones, 30% of those with a base that has a user transform) + 4% of the rest" if tier == "quick" else "all related pairs + 5% of the rest"}), '
                f'{n_ok} successful extensions ({n_applied} of a child that was applied to values '
                f'first: every child with a user transform, a sample of the others), each on the '
                f'values of both pools + core that b '
@@ -1995,7 +1997,8 @@ def _check_extension(rec, U, tier, i, j, ext, base, fam, mk, dicty):
   `mk`: the source that builds `ext`; `fam`: see `family`."""
   c, ec, b, eb = U.descs[i], U.exprs[i], U.descs[j], U.exprs[j]
   key = (ec, eb) if not fam.startswith('applied') else (ec, eb, 'applied')
-  wpre = lambda *xs: pre(ec, eb, *xs) + f'b = {eb}\n' + mk
+  wpre = lambda *xs: pre(ec, eb, mk, *xs) + f'b = {eb}\n' + mk
+  mk1 = mk.strip().replace('\n', '; ')
   # values of the extension are values of the base.
   m = U.own[i] | U.own[j]
   cand = m & ~U.ensure(j, m)
@@ -2025,7 +2028,7 @@ def _check_extension(rec, U, tier, i, j, ext, base, fam, mk, dicty):
       continue
     seen.add(cid)
     rec.case(cid, key + (x,), False,
-             f'{mk.strip()} -> {R(ext)} accepts {x}, which the base rejects',
+             f'{mk1} -> {R(ext)} accepts {x}, which the base rejects',
              fit(wpre(x) + f'assert not (acc(ext, {x}) and not acc(b, {x}))\n', (ec, eb, x)))
   if not seen:
     rec.case(f'extend.{fam}narrower', key, True)
@@ -2040,7 +2043,7 @@ def _check_extension(rec, U, tier, i, j, ext, base, fam, mk, dicty):
       rec.case(f'extend.{fam}base-compatible/{tag}', key, True)
     else:
       rec.case(f'extend.{fam}base-compatible/{tag}', key, False,
-               f'{mk.strip()} succeeded with {R(ext)}, but base.is_compatible(ext) '
+               f'{mk1} succeeded with {R(ext)}, but base.is_compatible(ext) '
                f'is {comp}', fit(wpre() + 'assert b.is_compatible(ext)\n', (ec, eb)))
   # the default of the extension is acceptable to it.
   d = ext.default
@@ -2051,7 +2054,7 @@ def _check_extension(rec, U, tier, i, j, ext, base, fam, mk, dicty):
       rec.case(f'extend.{fam}default-accepted/{c["k"]}', key, True)
     except Exception as ex:  # pylint: disable=broad-except
       rec.case(f'extend.{fam}default-accepted/{c["k"]}', key, False,
-               f'{mk.strip()} -> {R(ext)} rejects its own default {R(d)}: '
+               f'{mk1} -> {R(ext)} rejects its own default {R(d)}: '
                f'{type(ex).__name__}: {ex}',
                fit(wpre() + 'import copy\nassert acc(ext, copy.deepcopy(ext.default), '
                    'allow_partial=True)\n', (ec, eb)))
@@ -2111,6 +2114,17 @@ def field_specs(tier, seed):
             Union([Int(None, 0), Bool()]), Union([Type('P'), Callable([Int()])]),
             Enum(['1', '2']), Int(frozen='1', noneable=True)]:
     out.append(a)
+  # fields with a user transform, with / without a default (the default makes
+  # the constructor apply the spec before the class / schema is extended).
+  for a, tr, d in [(List(Int()), 'tr_list', '[1]'), (List(Int(), None, 3), 'tr_list', None),
+                   (Tuple(Int()), 'tr_tuple', '(1,)'), (Tuple([Int(), Int()]), 'tr_tuple', None),
+                   (Dict([('p', Int())]), 'tr_id', "{'p': 1}"), (Dict(), 'tr_id', '{}'),
+                   (Dict([('p', Int(default='1'))]), 'tr_id', None),
+                   (Object('A'), 'tr_a', 'A()'), (Callable(), 'tr_id', 'f1'),
+                   (Any(), 'tr_id', '1')]:
+    out.append(mod(a, transform=tr))
+    if d is not None:
+      out.append(mod(a, transform=tr, default=d))
   r = rng(seed, 'c04-fields')
   for _ in range(n_random(tier, 10, 60)):
     a = rand_spec(r, r.choice([0, 1, 2]))
@@ -2131,9 +2145,9 @@ def holds(spec, x):
     return False
 
 
-def not_narrower(ext, c, b, eb, xs):
-  """(x, tag) for the values of the extension `ext` of c that base b rejects
-  on the fields they share; one per tag."""
+def not_narrower(ext, c, b, eb, xs, head, fam, law):
+  """(x, case id) for the values of the extension `ext` of c that base b rejects
+  on the fields they share; one per case id."""
   out, seen = [], set()
   bs = ev(eb)
   for x in xs:
@@ -2147,10 +2161,10 @@ def not_narrower(ext, c, b, eb, xs):
         continue
       except Exception:  # pylint: disable=broad-except
         pass
-    tag = ext_tag(b, c, v) + origin(b, c)
-    if tag not in seen:
-      seen.add(tag)
-      out.append((x, tag))
+    cid = narrow_cid(head, fam, law, ext, b, c, v)
+    if cid not in seen:
+      seen.add(cid)
+      out.append((x, cid))
   return out
 
 
@@ -2188,6 +2202,9 @@ def drv_schema(tier, seed):
       eb = to_expr(b)
       if tier == 'quick' and not _related(c, b):
         continue
+      if has_transform(b) and b['k'] != c['k']:
+        continue     # a user converter of another kind of spec: outside the algebra.
+      fam = family(c, False)
       layout = (ci + bi) % 3
       # layout 0: same keys; 1: the base has a field more; 2: the child has.
       bf = f"[('x', {eb})" + (", ('y', t.Int(default=0))" if layout == 1 else '') + ']'
@@ -2209,28 +2226,28 @@ def drv_schema(tier, seed):
                  f'extended schema has keys {sorted(kc)}, base {sorted(kb)}',
                  fit(wpre + 'assert set(map(str, bs.keys())) <= set(map(str, cs.keys()))\n', key))
         fx = cs['x'].value
-        bad = not_narrower(fx, c, b, eb, xs)
-        for x, tag in bad:
-          rec.case('schema.extend.field-narrower/' + tag, key + (x,), False,
+        bad = not_narrower(fx, c, b, eb, xs, 'schema.extend.', fam, 'field-narrower')
+        for x, cid in bad:
+          rec.case(cid, key + (x,), False,
                    f'field x of {mk_c}.extend({mk_b}) is {R(fx)}: accepts {x}, which the '
                    f'base field {eb} rejects',
                    fit(pre(ec, eb, x) + f'bs = {mk_b}\ncs = {mk_c}.extend({mk_b})\n'
                        f"assert not (acc(cs['x'].value, {x}) and not acc(bs['x'].value, {x}))\n",
                        key))
         if not bad:
-          rec.case('schema.extend.field-narrower', key, True)
+          rec.case(f'schema.extend.{fam}field-narrower', key, True)
         if dict_key_paths(c) == dict_key_paths(b) and not has_transform(b):
           try:
             comp = ev(eb).is_compatible(fx)
           except Exception as ex:  # pylint: disable=broad-except
             comp = f'{type(ex).__name__}: {ex}'
           tag = gap(c, b) if comp is not True else f'{c["k"]}-{b["k"]}'
-          rec.case(f'schema.extend.base-field-compatible/{tag}', key, comp is True,
+          rec.case(f'schema.extend.{fam}base-field-compatible/{tag}', key, comp is True,
                    f'field x of {mk_c}.extend({mk_b}) is {R(fx)}; base field is_compatible: {comp}',
                    fit(wpre + "assert bs['x'].value.is_compatible(cs['x'].value)\n", key))
         dok = default_ok(fx)
         if dok is not None:
-          rec.case(f'schema.extend.default-accepted/{c["k"]}', key, dok[0],
+          rec.case(f'schema.extend.{fam}default-accepted/{c["k"]}', key, dok[0],
                    f'field x of {mk_c}.extend({mk_b}): {dok[1]}',
                    fit(wpre + "import copy\nf = cs['x'].value\n"
                        'assert acc(f, copy.deepcopy(f.default), allow_partial=True)\n', key))
@@ -2254,16 +2271,16 @@ def drv_schema(tier, seed):
           try:
             bs.apply(pv)
           except Exception as ex:  # pylint: disable=broad-except
-            tag = ext_tag(b, c, ev(x)) + origin(b, c)
+            tag = narrow_cid('schema.extend.', fam, 'dict-narrower', fx, b, c, ev(x))
             if tag not in badd:
               badd.add(tag)
-              rec.case('schema.extend.dict-narrower/' + tag, key + (x,), False,
+              rec.case(tag, key + (x,), False,
                        f'{mk_c}.extend({mk_b}) accepts {dvc}; the base schema does not '
                        f'accept {dv}: {type(ex).__name__}: {ex}',
                        fit(pre(ec, eb, x) + f'bs = {mk_b}\ncs = {mk_c}.extend({mk_b})\n'
                            f'cs.apply({dvc})\nbs.apply({dv})\n', key))
         if not badd:
-          rec.case('schema.extend.dict-narrower', key, True)
+          rec.case(f'schema.extend.{fam}dict-narrower', key, True)
       # Schema.is_compatible soundness.
       try:
         s1, s2 = ev(mk_b), ev(mk_c)
@@ -2323,6 +2340,7 @@ def _check_classes(rec, c, b, ec, eb, layout, xs):
     return 0
   Base, Child = ns['Base'], ns['Child']
   key = (ec, eb, layout)
+  fam = family(c, False)
   bad = set()
   fx = Child.__schema__['x'].value
   for x in xs:
@@ -2335,15 +2353,15 @@ def _check_classes(rec, c, b, ec, eb, layout, xs):
     try:
       Base(x=project(ev(x), c, b))
     except Exception as ex:  # pylint: disable=broad-except
-      tag = ext_tag(b, c, ev(x)) + origin(b, c)
+      tag = narrow_cid('schema.subclass.', fam, 'field-narrower', fx, b, c, ev(x))
       if tag not in bad:
         bad.add(tag)
-        rec.case('schema.subclass.field-narrower/' + tag, key + (x,), False,
+        rec.case(tag, key + (x,), False,
                  f'Child(x={x}) is accepted (field {R(fx)}) but '
                  f'Base(x={x}) is refused: {type(ex).__name__}: {ex}',
                  fit(pre(ec, eb, x) + src + f'Child(x={x})\nBase(x={x})\n', key))
   if not bad:
-    rec.case('schema.subclass.field-narrower', key, True)
+    rec.case(f'schema.subclass.{fam}field-narrower', key, True)
   fx = Child.__schema__['x'].value
   d = fx.default
   if not is_missing(d):
@@ -2353,7 +2371,7 @@ def _check_classes(rec, c, b, ec, eb, layout, xs):
       ok, msg = True, ''
     except Exception as ex:  # pylint: disable=broad-except
       ok, msg = False, f'{type(ex).__name__}: {ex}'
-    rec.case(f'schema.subclass.default-accepted/{c["k"]}', key, ok,
+    rec.case(f'schema.subclass.{fam}default-accepted/{c["k"]}', key, ok,
              f'Child.x is {fx!r}; it rejects its own default: {msg}',
              fit(pre(ec, eb) + src + "import copy\nf = Child.__schema__['x'].value\n"
                  'assert acc(f, copy.deepcopy(f.default), allow_partial=True)\n', key))
